@@ -710,6 +710,9 @@ def canon_model_rows(rows):
     out = []
     for r in rows:
         r = list(r)
+        if r[0] == 9:
+            out.append(r)
+            continue
         if r[0] == 0:
             pairs = sorted(zip(r[1::2], r[2::2]))
             out.append([0] + [x for kv in pairs for x in kv])
@@ -1192,8 +1195,12 @@ def judge(case, d, path_in):
         except Exception as e:
             fail = "second application of %s raised %r" % (task, e)
     res["fail"] = fail
+    crash_only = False
     if not os.path.exists(path_out):
-        return res
+        if task == "condense" and fail and "Empty data object" in fail:
+            crash_only = True
+        else:
+            return res
     # ---- correspondence material
     names = Names()
     fin = observe(path_in, names, task=task)
@@ -1210,12 +1217,15 @@ def judge(case, d, path_in):
         for name, fid in names.tabs["feat"].items():
             if name not in ev_in or bits.get(fid, 0) & 8:
                 stored.add(name)
-    fout = observe(path_out, names, ref_path=path_in, is_output=True,
-                   in_md5=in_md5, stored=stored, task=task)
     warned = False
-    with h5py.File(path_out, "r") as ho:
-        warned = any(k.endswith("-warnings") and k in cmd_logs(task)
-                     for k in ho.get("logs", {}))
+    if crash_only:
+        fout = None
+    else:
+        fout = observe(path_out, names, ref_path=path_in, is_output=True,
+                       in_md5=in_md5, stored=stored, task=task)
+        with h5py.File(path_out, "r") as ho:
+            warned = any(k.endswith("-warnings") and k in cmd_logs(task)
+                         for k in ho.get("logs", {}))
     if task == "repack":
         tnum, flags = 0, [bool(opts.get("strip_basins")),
                           bool(opts.get("strip_logs"))]
@@ -1249,7 +1259,11 @@ def judge(case, d, path_in):
             common.zlist(e) for e in v)) for k, v in dsval) + "]",
         coq_file(fin))
     res["rendered"] = rendered
-    res["impl"] = rows_of(fout)
+    if crash_only:
+        res["impl"] = [[9, 1]]
+        res["crash_only"] = True
+    else:
+        res["impl"] = rows_of(fout) + ([[9, 0]] if task == "condense" else [])
     nrecomp = 0
     for fid_, tag, obj in fin["events"]:
         for dd in ([obj] if tag == "ds" else [c[1] for c in obj]):
@@ -1320,6 +1334,29 @@ def chunk_check(run, count):
         if m[0] != i or m[1] != i:
             run.mismatch(dict(kind="chunks", shape=c[0], chunks=c[1]), m, i,
                          what="iter_chunks")
+
+
+def uint32_check(run):
+    """HDF5 conversion of signed values into the uint32 datasets the writer
+    uses for fl?_max vs. the model's clamp"""
+    import h5py
+    import numpy as np
+    vals = [run.rng.choice([-20, -1, 0, 1, 65535, 2 ** 31, 2 ** 32 - 1,
+                            2 ** 32, 2 ** 40, run.rng.randint(-10 ** 6,
+                                                              10 ** 6)])
+            for _ in range(60)]
+    path = os.path.join(run.scratch, "u32.h5")
+    with h5py.File(path, "w") as h5:
+        d = h5.create_dataset("x", shape=(len(vals),), dtype=np.uint32)
+        d[:] = np.array(vals, dtype=np.int64)
+        got = [int(x) for x in d[:]]
+    model = common.coq_map(run.scratch, "c08u", HEADER, "run_uint32",
+                           [common.zlist(vals)])
+    run.corr_checked += 1
+    run.count("uint32-store")
+    if model[0] != got:
+        run.mismatch(dict(kind="uint32", vals=vals), model[0], got,
+                     what="uint32 store")
 
 
 # --------------------------------------------------------------------------
@@ -1434,6 +1471,8 @@ def run(run):
     ctx = multiprocessing.get_context("fork")
     with ctx.Pool(min(common.NCPU, 12)) as pool:
         results = pool.map(eval_case, jobs, chunksize=4)
+    import time
+    t_impl = time.time() - run.t0
     rendered, impl, rcases = [], [], []
     for r in results:
         c = r["case"]
@@ -1457,13 +1496,22 @@ def run(run):
                            shard=max(4, len(rendered) // 14 + 1))
     for c, m, i in zip(rcases, model, impl):
         run.corr_checked += 1
-        m = canon_model_rows(m)
+        if i == [[9, 1]]:
+            # the task failed (known finding): only the model's verdict
+            m = [r for r in m if r[0] == 9]
+        else:
+            m = canon_model_rows(m)
         if m != i:
             diff = [(a, b) for a, b in zip(m, i) if a != b][:2]
             run.mismatch(c, dict(rows=len(m), first_diff=common.limited(diff, 1500)),
                          dict(rows=len(i)))
+    t_model = time.time() - run.t0
     chunk_check(run, 600 if run.thorough else 120)
+    uint32_check(run)
     tdms_check(run)
+    run.notes.append("seconds since start: tasks+oracle %.0f, model %.0f, "
+                     "chunks+tdms %.0f" % (t_impl, t_model,
+                                           time.time() - run.t0))
 
 
 def replay(payload):
